@@ -256,3 +256,101 @@ func buildBuiltins(env *zygo.Zlisp, tier string) (*listStream, map[string]string
 	}
 	return s, skipped
 }
+
+// ---- infix statement forms of pratt.go, malformed at every token position ----------------------
+
+var infixTemplates = []string{
+	"for i := range a { ( println i ) }",
+	"for k , v := range h { k }",
+	"for i = range a { i }",
+	"for _ , v := range [ 1 2 3 ] { v }",
+	"for i := 0 ; i < 3 ; i ++ { i }",
+	"for i = 0 ; i < 3 ; i = i + 1 { i }",
+	"for ; ; { break }",
+	"for i < 3 { i ++ }",
+	"for { break }",
+	"lbl: for i := 0 ; i < 3 ; i ++ { continue lbl: }",
+	"lbl: for i := range a { break lbl: }",
+	"lbl: for i = range a { }",
+	"for i := range a { for j := range b { break } }",
+	"if a < 1 { 1 } else { 2 }",
+	"if a { 1 } else if b { 2 } else { 3 }",
+	"if a { 1 }",
+	"if a == 1 { break } else { continue }",
+	"a := 1",
+	"a , b := 1 , 2",
+	"a , b = b , a",
+	"a = 1",
+	"a ++",
+	"a --",
+	"a += 1",
+	"a -= 1",
+	"a [ 1 ]",
+	"a [ 1 : 2 ]",
+	"a [ : 2 ]",
+	"a [ 1 : ]",
+	"a [ 0 ] = 1",
+	"a [ i ] [ j ]",
+	"a . b",
+	"a.b ( 1 )",
+	"a.b.c = 2",
+	"f ( 1 , 2 )",
+	"( f 1 2 )",
+	"1 + 2 * 3",
+	"- 1",
+	"! a",
+	"a && b || c",
+	"a ** 2",
+	"a -> b",
+	"a == b",
+	"a != b",
+	"1 ; 2",
+	"x := [ 1 2 3 ] ; x [ 0 ]",
+	"h := { a: 1 } ; h . a",
+	"return 1",
+	"break",
+	"continue lbl:",
+	"( def a [ 1 2 3 ] ) for i := range a { i }",
+	"( defn f [ x ] { x + 1 } ) f ( 2 )",
+	"s := 0 ; for i := range [ 1 2 ] { s += i } ; s",
+}
+
+var infixReplacements = []string{":=", "=", ";", ",", "{", "}", "range", "for", "if", "else", "lbl:", "[", "]", ":", "(", ")", "++", "."}
+
+func buildInfix(tier string) *listStream {
+	s := &listStream{name: "infix"}
+	seen := map[string]bool{}
+	emit := func(toks []string, tag string) {
+		body := strings.Join(toks, " ")
+		if seen[body] {
+			return
+		}
+		seen[body] = true
+		s.add("{"+body+"}", "", "infix:"+tag)
+		s.add(body, "", "infix:"+tag+":bare") // the REPL wraps a bare line in (infix [...]) itself
+	}
+	for _, t := range infixTemplates {
+		toks := strings.Fields(t)
+		n := len(toks)
+		for k := 0; k <= n; k++ { // truncation at every token position
+			emit(toks[:k], "truncate")
+			// truncated, but with the braces of a body block closed
+			emit(append(append([]string{}, toks[:k]...), "{", "}"), "truncate+body")
+		}
+		for k := 0; k < n; k++ {
+			emit(append(append([]string{}, toks[:k]...), toks[k+1:]...), "delete")
+			d := append(append([]string{}, toks[:k+1]...), toks[k:]...)
+			emit(d, "duplicate")
+			if tier == "thorough" {
+				for _, r := range infixReplacements {
+					x := append([]string{}, toks...)
+					x[k] = r
+					emit(x, "replace")
+					y := append(append(append([]string{}, toks[:k]...), r), toks[k:]...)
+					emit(y, "insert")
+				}
+			}
+		}
+	}
+	return s
+}
